@@ -153,19 +153,39 @@ theorem walkItems_of_parseEntries : ∀ (kvs : List (Bytes × BVal)) (pre : List
     · rw [if_neg hp] at h; cases h
 end
 
+/-- on an entry whose `attr` is a string (or absent) the code's test `"p" in attr` is the
+    BEP 47 padding mark -/
+theorem padAttr_of_v1Pad (item : BVal) (x : BVal) (pad : Bool)
+    (hd : item.get? K.length = some x) (h : v1Pad item = some pad) :
+    padAttr item = .ok pad := by
+  obtain ⟨d, rfl, _⟩ := get?_some_dict item K.length x hd
+  unfold v1Pad at h
+  simp only [BVal.get?] at h
+  unfold padAttr
+  split at h
+  · rename_i hn
+    simp only [Option.some.injEq] at h
+    simp [hn, h]
+  · rename_i a ha
+    simp only [Option.some.injEq] at h
+    subst h
+    simp only [ha]
+  · cases h
+
 theorem v1Item_spec (item : BVal) (r : FileRec) (h : v1Item item = some r) :
-    ∃ i l comps, sub item K.length = .ok (.int i) ∧ 0 ≤ i ∧ sub item RF.kPath = .ok (.list l) ∧
-      strs l = .ok comps ∧ comps ≠ [] ∧ r = (comps, i.toNat, none) := by
+    ∃ i l comps pad, sub item K.length = .ok (.int i) ∧ 0 ≤ i ∧
+      sub item RF.kPath = .ok (.list l) ∧ strs l = .ok comps ∧ comps ≠ [] ∧
+      padAttr item = .ok pad ∧ r = (comps, i.toNat, if pad then padMark else none) := by
   unfold v1Item at h
   split at h
   · rename_i i l hlen hpath
     split at h
-    · rename_i comps hc
+    · rename_i comps pad hc hp
       split at h
       · rename_i hcond
         simp only [Option.some.injEq] at h
-        exact ⟨i, l, comps, sub_of_get? _ _ _ hlen, hcond.1, sub_of_get? _ _ _ hpath, hc,
-          hcond.2.1, h.symm⟩
+        exact ⟨i, l, comps, pad, sub_of_get? _ _ _ hlen, hcond.1, sub_of_get? _ _ _ hpath, hc,
+          hcond.2.1, padAttr_of_v1Pad item _ pad hlen hp, h.symm⟩
       · cases h
     · cases h
   · cases h
@@ -186,8 +206,8 @@ theorem v1Files_of_v1Items (items : List BVal) (recs : List FileRec)
       | some t =>
         simp only [hx, ht, Option.some.injEq] at h
         subst h
-        obtain ⟨i, l, comps, h1, h2, h3, h4, h5, rfl⟩ := v1Item_spec x r hx
-        simp [Impl.v1Files, h1, nat, h2, h3, h4, h5, ih t ht]
+        obtain ⟨i, l, comps, pad, h1, h2, h3, h4, h5, h6, rfl⟩ := v1Item_spec x r hx
+        simp [Impl.v1Files, h1, nat, h2, h3, h4, h5, h6, ih t ht]
 
 theorem metaVersion_v2 (info : Dict) (h : hasV2 info = true) :
     Impl.metaVersion info > 1 ∧ Impl.metaVersion info ≠ 1 := by
@@ -599,14 +619,23 @@ theorem content_eq_fileBytes (root : Node) (path : List Bytes)
     | dir es => exact absurd hl (h es)
 
 theorem rcV1Entries_eq (root : Node) (recs : List FileRec)
-    (h : ∀ r ∈ recs, ∀ es, lookup root r.1 ≠ some (.dir es)) :
-    Impl.rcV1Entries root recs = .ok (recs.map fun r => (r.2.1, fileBytes root r.1)) := by
+    (h : ∀ r ∈ recs, isPadRec r = false → ∀ es, lookup root r.1 ≠ some (.dir es)) :
+    Impl.rcV1Entries root recs = .ok (recs.map fun r => (r.2.1, v1Disk root r)) := by
   induction recs with
   | nil => rfl
   | cons r rs ih =>
-    have h1 := content_eq_fileBytes root r.1 (h r (by simp))
     have h2 := ih (fun x hx => h x (by simp [hx]))
-    simp [Impl.rcV1Entries, h1, h2]
+    cases hp : isPadRec r with
+    | true => simp [Impl.rcV1Entries, hp, h2, v1Disk]
+    | false =>
+      have h1 := content_eq_fileBytes root r.1 (h r (by simp) hp)
+      simp [Impl.rcV1Entries, hp, h1, h2, v1Disk]
+
+/-- a padding entry is not looked up -/
+theorem rcV1Entries_pad (root : Node) (r : FileRec) (rs : List FileRec) (h : isPadRec r = true) :
+    Impl.rcV1Entries root (r :: rs) = (Impl.rcV1Entries root rs).map ((r.2.1, none) :: ·) := by
+  simp only [Impl.rcV1Entries, h, if_true, bind_ok]
+  cases Impl.rcV1Entries root rs <;> rfl
 
 theorem rcV2Entry_eq (pl : Nat) (layers : Dict) (root : Node) (r : FileRec) (f : Impl.V2File)
     (hf : v2FileOf pl layers root r = some f)
@@ -758,7 +787,7 @@ structure PlanParts (B : Nat) (mf : BVal) (disk : Disk) (p : Plan) where
         pi.toNat % B = 0 ∧ recs ≠ [] ∧ v2FilesOf pi.toNat layers disk recs = some files ∧
         p = .v2 (pi.toNat / B) files) ∨
     (¬ hasV2 info = true ∧ ∃ recorded, dictGet info K.pieces = some (.str recorded) ∧
-        p = .v1 pi.toNat recorded (recs.map fun r => (r.2.1, fileBytes disk r.1)))
+        p = .v1 pi.toNat recorded (recs.map fun r => (r.2.1, v1Disk disk r)))
 
 theorem plan_inv (B : Nat) (mf : BVal) (disk : Disk) (p : Plan) (hplan : plan B mf disk = some p) :
     Nonempty (PlanParts B mf disk p) := by
@@ -823,6 +852,7 @@ theorem recheckMeta_of_plan (H1 H : Bytes → Bytes) (B hs : Nat) (hhs : 0 < hs)
     intro hv he
     exact hne ⟨by rw [hrecs, he], info, hinfo, hv⟩)
   have hnd := hnodir recs hrecs
+  have hio := infoOf_eq mf info hinfo
   have hplen : Impl.pieceLen (.int pi) = .ok pi.toNat := by simp [Impl.pieceLen, hpos]
   unfold Impl.recheckMeta
   simp only [hsubinfo, bind_ok, sub_dict info K.name _ hname, str, sub_dict info K.pieceLength _ hpl,
@@ -836,7 +866,8 @@ theorem recheckMeta_of_plan (H1 H : Bytes → Bytes) (B hs : Nat) (hhs : 0 < hs)
     have hbpp : 0 < pi.toNat / B := by
       apply Nat.pos_of_ne_zero; intro h0; rw [h0] at hmul; omega
     simp only [Plan.InScope] at hscope
-    have hent := rcV2Entries_eq pi.toNat layers disk recs files hfiles hnd
+    have hent := rcV2Entries_eq pi.toNat layers disk recs files hfiles
+      (fun r hr => hnd r hr (by simp [isPad, hio, hv]))
       (describedFiles_v2_root mf info name _ recs hinfo hname hv hrecs)
       (fun f hf => (hscope f hf).notLonger)
     have hhc := Impl.hashCheck_eq_v2Check H B hs (pi.toNat / B) hB hbpp hhs files hscope
@@ -853,13 +884,14 @@ theorem recheckMeta_of_plan (H1 H : Bytes → Bytes) (B hs : Nat) (hhs : 0 < hs)
   · -- v1
     have hver := metaVersion_v1 info hv
     simp only [Plan.InScope] at hscope
-    have hent := rcV1Entries_eq disk recs hnd
+    have hent := rcV1Entries_eq disk recs
+      (fun r hr hp => hnd r hr (by simp [isPad, hio, hv, hp]))
     have hfc := Impl.feedCheck_eq_v1Check H1 pi.toNat (by omega) recorded _ hscope
     simp only [hver, if_true, sub_dict info K.pieces _ hrec, bind_ok, hplen, hent, hfc,
       Plan.verdicts]
     unfold Impl.finishRun
     by_cases ht : totalOf recs = 0
-    · have hz : v1Check H1 pi.toNat recorded (recs.map fun r => (r.2.1, fileBytes disk r.1)) = [] := by
+    · have hz : v1Check H1 pi.toNat recorded (recs.map fun r => (r.2.1, v1Disk disk r)) = [] := by
         apply v1Check_total_zero
         simpa [totalOf, List.map_map, Function.comp_def] using ht
       simp [hz, Impl.iterHashes_eq_ratio]
@@ -1134,7 +1166,7 @@ theorem intact_noDir (H1 H : Bytes → Bytes) (B hs : Nat) (mf : BVal) (disk : D
     (hplan : plan B mf disk = some p) (hint : p.Intact H1 H B hs) : NoDirAtFile mf disk := by
   obtain ⟨pp⟩ := plan_inv B mf disk p hplan
   obtain ⟨recs, info, name, pi, hrecs, hinfo, hname, hpl, hpos, hcase⟩ := pp
-  intro recs' hrecs' r hr
+  intro recs' hrecs' r hr _
   obtain rfl : recs' = recs := by rw [hrecs] at hrecs'; exact (Option.some.inj hrecs').symm
   rcases hcase with ⟨_, layers, files, _, _, _, _, hfiles, rfl⟩ | ⟨_, recorded, _, rfl⟩
   · obtain ⟨f, hf, hfr⟩ := v2FilesOf_mem _ _ _ _ _ hfiles r hr
@@ -1142,12 +1174,18 @@ theorem intact_noDir (H1 H : Bytes → Bytes) (B hs : Nat) (mf : BVal) (disk : D
     have := (v2FileOf_length _ _ _ _ _ hfr).2
     exact fileBytes_some_not_dir disk r.1 d (by rw [← this, hd])
   · obtain ⟨data, hdata, _⟩ := hint
-    have hm : (r.2.1, fileBytes disk r.1) ∈ recs'.map fun r => (r.2.1, fileBytes disk r.1) :=
+    have hm : (r.2.1, v1Disk disk r) ∈ recs'.map fun r => (r.2.1, v1Disk disk r) :=
       List.mem_map.mpr ⟨r, hr, rfl⟩
     rw [hdata] at hm
     obtain ⟨d, _, hd⟩ := List.mem_map.mp hm
     simp only [Prod.mk.injEq] at hd
-    exact fileBytes_some_not_dir disk r.1 d hd.2.symm
+    have hfb : fileBytes disk r.1 = some d := by
+      have h2 := hd.2
+      unfold v1Disk at h2
+      split at h2
+      · cases h2
+      · exact h2.symm
+    exact fileBytes_some_not_dir disk r.1 d hfb
 
 theorem total_pos_not_emptySingle (B : Nat) (mf : BVal) (disk : Disk) (p : Plan)
     (hplan : plan B mf disk = some p) (ht : 0 < p.total) : ¬ EmptySingleV2 mf (isFile disk) := by
@@ -1236,6 +1274,21 @@ def v2Disk : Disk :=
 
 /-- `a` truncated to 5 bytes, `d/c` removed -/
 def v2Damaged : Disk := .dir [([97], .file [1, 2, 3, 4, 5]), ([98], .file [])]
+
+/-- v1 with a BEP 47 padding entry: `a` = 1 2 3 4, padding `.pad/2` (2 bytes, `attr` as
+    given), `b` = 5 6; `pieces` hashes 1 2 3 4 | 0 0 5 6 -/
+def v1PadMeta (attr : Bytes) : BVal :=
+  .dict [(K.info, .dict [(K.name, .str [110]), (K.pieceLength, .int 4),
+    (K.pieces, .str (List.replicate 20 1 ++ List.replicate 20 0)),
+    (K.files, .list [.dict [(K.length, .int 4), (RF.kPath, .list [.str [97]])],
+                     .dict [(RF.kAttr, .str attr), (K.length, .int 2),
+                            (RF.kPath, .list [.str [46, 112, 97, 100], .str [50]])],
+                     .dict [(K.length, .int 2), (RF.kPath, .list [.str [98]])]])])]
+
+/-- the payload of `v1PadMeta` with a REAL file `.pad/2` = 9 9 on disk -/
+def v1PadDisk : Disk :=
+  .dir [([97], .file [1, 2, 3, 4]), ([46, 112, 97, 100], .dir [([50], .file [9, 9])]),
+        ([98], .file [5, 6])]
 
 /-- a directory `n` that holds the intact payload `n` AND, directly, entries named like all
     three described top-level entries (`a` with other content): a tie for `_is_parent` -/
